@@ -22,7 +22,7 @@ ORACLE_KEYS = ("uptake-credit", "uptake-credited-in-later-substep", "mineral-boo
                "dissolved-exceeds-applied", "c1-negative", "state-not-finite", "fixation-credit",
                "tillage-mixing-not-conservative", "tillage-run-error", "booked-in-later-substep", "applied-fertiliser-decreases", "prognosis-dressing-removes-n", "crop-n-negative", "resprouting-creates-n", "per-crop-fixation", "harvest-run-error", "harvest-pool-not-finite-or-negative",
                "harvest-removes-organic-n", "harvest-residues-exceed-crop-n", "harvest-first-entry-books-residues", "crop-n-credit", "mineral-n-below-profile",
-               "nitrified-exceeds-ammonium-applied", "n2o-counter-negative")
+               "nitrified-exceeds-ammonium-applied", "n2o-counter-negative", "source-term-without-pool-loss")
 
 
 def correspond(ctx):
